@@ -1347,3 +1347,78 @@ def rule_hashable_membership(ctx: Ctx, rep: Report, rule: str, module_prefixes: 
                    f"`{norm(c)}` hashes a slice: for an operand held in a bytearray or a memoryview this is a TypeError, not an answer")
     rep.ob(rule, "scanned", True, "btclib:1", f"{n} memberships of a slice in a set literal in {module_prefixes}")
     rep.floor(rule, 2)
+
+
+_IDENTITY_SAMPLE = """
+def f(ec: Curve, xpub):
+    ec2 = curve_from_xkeyversion(xpub.version)
+    if ec is not ec2:
+        raise ValueError
+"""
+
+_VALUE_TYPES = {"Curve", "CurveGroup", "CurveSubGroup", "bytes", "int", "str", "Point", "JacPoint", "Octets", "String", "Network"}
+
+
+def identity_on_values(ctx: Ctx, fn: ast.AST, ret_types) -> list[ast.Compare]:
+    """`a is b` / `a is not b` in `fn` where an operand is, by its annotation or
+    by the return annotation of the function it was assigned from, one of
+    the library's value types."""
+    types: dict[str, set[str]] = {}
+    a = fn.args
+    for p_ in a.posonlyargs + a.args + a.kwonlyargs:
+        if p_.arg != "self":
+            types[p_.arg] = _annotation_names(ctx, p_.annotation)
+    for n in own_nodes(fn):
+        if isinstance(n, ast.AnnAssign) and isinstance(n.target, ast.Name):
+            types.setdefault(n.target.id, set()).update(_annotation_names(ctx, n.annotation))
+        if isinstance(n, ast.Assign) and len(n.targets) == 1 and isinstance(n.targets[0], ast.Name) and isinstance(n.value, ast.Call):
+            types.setdefault(n.targets[0].id, set()).update(ret_types(n.value))
+    out = []
+    for n in own_nodes(fn):
+        if not isinstance(n, ast.Compare):
+            continue
+        left = n.left
+        for op, c in zip(n.ops, n.comparators):
+            if isinstance(op, (ast.Is, ast.IsNot)) and not (isinstance(c, ast.Constant) or isinstance(left, ast.Constant)):
+                for side in (left, c):
+                    if isinstance(side, ast.Name) and types.get(side.id, set()) & _VALUE_TYPES:
+                        out.append(n)
+                        break
+            left = c
+    return out
+
+
+def rule_values_by_value(ctx: Ctx, rep: Report, rule: str, module_prefixes: tuple[str, ...]) -> None:
+    """A curve, a point, a network, octets: the library's values are equal when
+    their fields are, and two equal ones need not be one object -- a curve
+    built from the same parameters, a copy, one unpickled. No decision
+    compares two of them with `is`: identity is kept for None, for the
+    singletons, for classes and functions, and for `self is other` shortcuts
+    in `__eq__`."""
+    def ret_types(call: ast.Call, fi=None) -> set[str]:
+        return set()
+    sample = ast.parse(_IDENTITY_SAMPLE)
+    from sa.loader import _set_parents
+    _set_parents(sample)
+
+    def mk(fi):
+        def rt(call: ast.Call) -> set[str]:
+            tgt = ctx.resolve_call(fi, call) if fi is not None else None
+            callee = ctx.prog.functions.get(tgt) if tgt else None
+            if callee is not None:
+                return _annotation_names(ctx, callee.node.returns)
+            if tgt in ctx.prog.classes:
+                return {tgt.rsplit(".", 1)[-1]}
+            return set()
+        return rt
+    rep.ob(rule, "selftest:sample", len(identity_on_values(ctx, sample.body[0], lambda c: set())) == 1, "rules/sigcommon.py:1", "the detector fires on its own sample")
+    n = 0
+    for q, fi in sorted(ctx.prog.functions.items()):
+        if not any(q.startswith(p_) for p_ in module_prefixes):
+            continue
+        n += 1
+        for c in identity_on_values(ctx, fi.node, mk(fi)):
+            rep.ob(rule, f"{q}:{norm(c)[:40]}", False, fi.where(c),
+                   f"`{norm(c)}` compares two values by identity: an equal value that is another object -- a curve built from the same parameters, a copy -- takes the other branch")
+    rep.ob(rule, "scanned", True, "btclib:1", f"{n} functions in {module_prefixes}")
+    rep.floor(rule, 2)
